@@ -73,8 +73,8 @@ def mgs_request(m, k):
     return "mgsenc " + common.toks(t)
 
 
-def mgspre_request(remove, numbers, total):
-    return "mgspre " + common.toks([bool(remove)] + qs(numbers) + common.qtok(total))
+def mgspre_request(remove, mult, numbers, total):
+    return "mgspre " + common.toks([bool(remove), mult] + qs(numbers) + common.qtok(total))
 
 
 def parse_qs(line):
@@ -88,9 +88,13 @@ def status_code(st):
     return 0 if st == "kOptimal" else 1 if st == "kInfeasible" else 2
 
 
-def mgsloop_request(lowerbound, n_initial, statuses):
+def extra_cuts(parts):
+    return sum(len(c) - 1 for c in (parts or []))
+
+
+def mgsloop_request(lowerbound, n_initial, statuses, parts=None):
     """statuses: {k: status string as get_model_status() reported it}"""
-    return "mgsloop " + common.toks([lowerbound, n_initial, len(statuses), [[k, status_code(b)] for k, b in sorted(statuses.items())]])
+    return "mgsloop " + common.toks([lowerbound, n_initial, extra_cuts(parts), len(statuses), [[k, status_code(b)] for k, b in sorted(statuses.items())]])
 
 
 def parse_loop(line):
